@@ -240,7 +240,9 @@ class AsyncRunnerTemplate(BaseRunner, ABC):
             )
 
             if error_handling == "raise":
-                raise error from None
+                # hide the runner's own handling from the traceback, keep the cause the
+                # node function gave its exception (``raise High(...) from low``)
+                raise error from error.__cause__
 
             partial_values = filter_outputs(partial_state, graph, select) if partial_state is not None else {}
             return RunResult(
